@@ -70,7 +70,9 @@ func c17Grid(full bool) []dtStr {
 		}
 	}
 	// equal instants with different offsets (time-with-zone tie-break by offset)
-	for _, s := range []string{"12:34:56+01", "11:34:56Z", "13:34:56+02:00", "06:04:56-05:30", "11:34:56+00:00", "00:04:56+12:30", "23:34:56-12:00"} {
+	for _, s := range []string{"12:34:56+01", "11:34:56Z", "13:34:56+02:00", "06:04:56-05:30", "11:34:56+00:00", "00:04:56+12:30", "23:34:56-12:00",
+		// ... also where the offsets are less than an hour apart
+		"13:04:56+01:30", "12:19:56+00:45", "11:49:56+00:15", "12:49:56+01:15"} {
 		out = append(out, dtStr{s, "timetz"})
 	}
 	for _, s := range []string{"2023-08-15T12:34:56+01:00", "2023-08-15T11:34:56Z", "2023-08-15T17:04:56+05:30", "2023-08-14T23:34:56-12:00"} {
@@ -84,6 +86,11 @@ func c17Grid(full bool) []dtStr {
 	// nanoseconds in 64 bits (1677-09-21 .. 2262-04-11)
 	for _, d := range []string{"1500-06-15", "2300-01-01", "1677-09-20", "1677-09-22", "2262-04-11", "2262-04-12", "1000-01-01", "3000-01-01", "5000-06-15", "0800-12-25"} {
 		out = append(out, dtStr{d, "date"}, dtStr{d + "T12:00:00", "timestamp"}, dtStr{d + "T12:00:00+00:00", "timestamptz"})
+	}
+	// fractions that lie exactly half-way at a precision (p+1 digits ending in
+	// 5), most of them not exact in binary floating point
+	for _, f := range []string{".145", ".285", ".565", ".575", ".15", ".25", ".35", ".45", ".5005", ".0005", ".1234565", ".00005", ".999995", ".5", ".05", ".005", ".123455", ".12345", ".1235"} {
+		out = append(out, dtStr{"12:00:00" + f, "time"}, dtStr{"2024-06-14T23:59:59" + f, "timestamp"}, dtStr{"23:59:59" + f + "+05:30", "timetz"}, dtStr{"2023-12-31T23:59:59" + f + "-08:00", "timestamptz"})
 	}
 	// non-datetime inputs
 	for _, s := range []string{"", "abc", "2023-13-01", "2023-02-30", "24:00:00", "12:60:00", "12:34:60", "2023-08-15T", "2023-08-15 12:34", "12:34", "2023-8-15", "2023-08-15T12:34:56+1", "2023-08-15T12:34:56 +01", "15/08/2023", "12:34:56+25"} {
